@@ -585,7 +585,19 @@ func flags(repo string) []flag {
 	// srv.unaryCtxFollowsConn
 	{
 		fd := sv.fn("handler", "processUnaryRpc")
-		add("unaryCtxFollowsConn", fd != nil && hasCall(fd, "context.AfterFunc") && strings.Contains(str(fd), "context.AfterFunc(h.ctx, cancel)"), "")
+		// the watcher must be installed unconditionally: a top-level statement of the function body
+		ok := false
+		if fd != nil {
+			for _, st := range fd.Body.List {
+				switch st.(type) {
+				case *ast.AssignStmt, *ast.ExprStmt:
+					if strings.Contains(str(st), "context.AfterFunc(h.ctx, cancel)") {
+						ok = true
+					}
+				}
+			}
+		}
+		add("unaryCtxFollowsConn", ok, "")
 	}
 	// srv.workerHandoffSelectsOnConn
 	{
@@ -1266,6 +1278,7 @@ var trackedFns = []tracked{
 	{"server.go", "handler", "serve"},
 	{"server.go", "handler", "cancelAndWaitForStreams"},
 	{"server.go", "handler", "processStreamingRpc"},
+	{"server.go", "handler", "processUnaryRpc"},
 	{"server.go", "handler", "runStream"},
 	{"server.go", "handler", "unregisterStream"},
 	{"server.go", "handler", "resetStream"},
